@@ -98,6 +98,10 @@ DistinctMenu == {
   \* three columns whose outer values are exchanged between rows: (a, v, b) and (b, v, a) are different tuples
   Sel(<<P(K, ""), P(V, ""), P(CaseE(<<<<CmpE("=", K, Lit(A)), Lit(B)>>>>, Lit(A)), "o")>>, NoE, TRUE, NoLimit, "none"),
   Sel(<<P(V, ""), P(K, ""), P(V, "v2"), P(K, "k2")>>, NoE, TRUE, NoLimit, "none"),
+  \* groups keyed by an expression that is not shown (alone, and next to a plain key that is shown): groups with equal shown rows
+  Agg(<<CountStar>>, <<Arith("+", V, Zero)>>, NoE, NoH, TRUE, NoLimit, "none"),
+  Agg(<<KeyK, CountStar>>, <<K, Arith("*", V, One)>>, NoE, NoH, TRUE, NoLimit, "none"),
+  Agg(<<CountStar>>, <<CaseE(<<<<CmpE("=", K, Lit(A)), Lit(B)>>>>, Lit(A))>>, NoE, NoH, TRUE, NoLimit, "none"),
   \* DISTINCT on a projection of only some of the group keys: groups that differ in the other key show equal rows
   Agg(<<ItE("key", V, "v")>>, <<K, V>>, NoE, HAgg(CountStar, ">=", IntV(1)), TRUE, NoLimit, "none"),
   Agg(<<KeyK>>, <<K, V>>, NoE, HAgg(CountStar, ">=", IntV(1)), TRUE, NoLimit, "none")
@@ -502,6 +506,8 @@ Emit ==
     PrintT(<<"REPLAY", ToJson([tdef |-> tdef, q |-> q, files |-> files, jlines |-> jlines, mode |-> mode, intr |-> intr,
                                 cols |-> ColNames(q), printed |-> printed, status |-> status, consumed |-> consumed,
                                 steps |-> steps,
+                                \* the run ended because its LIMIT was complete (follow mode: the executor returns at once, it does not wait for a further line)
+                                bylimit |-> HasLimit /\ status = "ok" /\ nout >= q.limit /\ (IsAgg => (mode = "follow" /\ steps # <<>> /\ steps[Len(steps)].st = "ok")),
                                 jcalls |-> IF q.join = "none" THEN 0 ELSE IF ji < Len(jlines) THEN ji + 1 ELSE Len(jlines),
                                 fired |-> IF Deviates THEN Dev ELSE {},
                                 ideal |-> IF Deviates THEN IdealOut ELSE Out(<<>>, "same")])>>)
